@@ -264,9 +264,12 @@ def i_JAL(ins, fmap):
 
 def i_JALR(ins, fmap):
     dst, src1, imm = ins.operands
+    # the target is computed from rs1 before rd is written (rd may be rs1),
+    # and its least-significant bit is cleared:
+    target = fmap(src1 + imm) & cst(-2, pc.size)
     if dst is not zero:
         fmap[dst] = fmap(pc + ins.length)
-    fmap[pc] = fmap(src1 + imm)
+    fmap[pc] = target
 
 
 def i_BEQ(ins, fmap):
